@@ -119,10 +119,12 @@ Definition uns (xs : list pexpr) : list pexpr := flat_map (fun op => map (PUn op
 Definition conds (cs xs ys : list pexpr) : list pexpr :=
   flat_map (fun c => flat_map (fun a => map (fun b => PCond c a b) ys) xs) cs.
 Definition depth1 : list pexpr := bins (lits pool) (lits pool) ++ uns (lits pool) ++ conds (lits pool) (lits pool) (lits pool).
+Definition pool3 : list Z := [1; -7; 9223372036854775807; -9223372036854775808].
+Definition depth1' : list pexpr := bins (lits pool3) (lits pool3) ++ uns (lits pool3).
 Definition depth2 : list pexpr :=
-  bins depth1 (lits pool2) ++ bins (lits pool2) depth1 ++ uns depth1 ++
-  conds (bins (lits pool2) (lits pool2)) (lits pool2) (lits pool2) ++
-  conds (lits [0; 1]) (bins (lits pool2) (lits pool2)) (uns (lits pool2)).
+  bins depth1' (lits pool2) ++ bins (lits pool2) depth1' ++ uns depth1' ++
+  conds (bins (lits pool3) (lits pool3)) (lits pool3) (lits pool3) ++
+  conds (lits [0; 1]) (bins (lits pool3) (lits pool3)) (uns (lits pool3)).
 
 Lemma eval_signed_depth1 : forallb eval_agrees (lits pool ++ depth1) = true.
 Proof. vm_compute. reflexivity. Qed.
